@@ -41,7 +41,7 @@ Proof. vm_compute. split; reflexivity. Qed.
 (* ------------------------------------------------------------------------------------------------------
    Added in build session 4 (statements re-stated from the proof files by harness tooling; each is closed by
    exact). *)
-From SplipyModel Require Import Model.Stl Model.Spl Proofs.StlProofs Proofs.SplProofs.
+From SplipyModel Require Import Model.Stl Model.Spl Proofs.StlProofs Proofs.SplProofs Transfer.ParamObj Transfer.ParamOps Transfer.ParamOps2.
 Theorem C19_spl_roundtrip :
   forall (tol acc : R) (o : obj R),
          @spl_ok R NumR tol o = true ->
@@ -181,4 +181,24 @@ Theorem C19_stl_pad3 :
          ((@length F p <= 3)%nat -> @length F (@pad3 F H p) = 3%nat) /\ ((3 <= @length F p)%nat -> @pad3 F H p = p).
 Proof. exact @pad3_spec. Qed.
 Print Assumptions C19_stl_pad3.
+
+Theorem C19_executed_is_proved_stl :
+  forall (tol : Q) (o : obj Q) (n : option (nat * nat)),
+         @resmap (list (@stl_tri Q)) (list (@stl_tri R)) (@map (@stl_tri Q) (@stl_tri R) triQ2R)
+           (@stl_write_surface Q NumQ tol o n) = @stl_write_surface R NumR (Q2R tol) (objQ2R o) n.
+Proof. exact @stl_write_surface_transfer. Qed.
+Print Assumptions C19_executed_is_proved_stl.
+
+Theorem C19_executed_is_proved_spl_decode :
+  forall (tol : Q) (lines : list (list Q)),
+         @option_map (obj Q) (obj R) objQ2R (@spl_decode Q NumQ tol lines) =
+         @spl_decode R NumR (Q2R tol) (@map (list Q) (list R) (@map Q R Q2R) lines).
+Proof. exact @spl_decode_transfer. Qed.
+Print Assumptions C19_executed_is_proved_spl_decode.
+
+Theorem C19_executed_is_proved_spl_lines :
+  forall (acc : Q) (o : obj Q),
+         @map (list Q) (list R) (@map Q R Q2R) (@spl_lines Q NumQ acc o) = @spl_lines R NumR (Q2R acc) (objQ2R o).
+Proof. exact @spl_lines_transfer. Qed.
+Print Assumptions C19_executed_is_proved_spl_lines.
 
